@@ -101,6 +101,49 @@ NEEDS = {
     'C17-4': 'a conforming archive with chunks stored in non-ascending order: read list sorted, descriptors not',
     'C17-5': 'a hash length below 64: verification digests with variable-length BLAKE2b',
     'C17-6': 'a local archive with padding / slack: refused because its size differs from header + chunk data',
+    # ---- third round (agents were asked for changes that need something specific to manifest; earlier ideas listed as taken)
+    'C01-7': 'a source with repeated chunks (CLI writer): the source digest is updated below an early return for duplicates',
+    'C01-8': 'a rolling-hash archive with min chunk size == max chunk size: half-open range in the reader\'s validation',
+    'C01-9': 'a transfer fault during a header / dictionary request with --http-retry-count > 0: .retry() lost in a new helper',
+    'C02-7': 'an existing non-zero output re-used with -f and a source with an all-zero chunk: zero chunks skipped as "holes"',
+    'C02-8': 'two concurrent clones into outputs that differ only in their extension: shared <stem>.part temp file',
+    'C02-9': 'a release build and a swap in the prior output: the insert into the in-memory store sits inside debug_assert!',
+    'C03-7': 'the output is a symlink to a longer regular file: resize guard computed with lstat on the path',
+    'C03-8': 'a repeated chunk already in place at exactly the first k of its n > k offsets: zip() prefix shortcut in strip',
+    'C03-9': 'a rotation of >= 3 chunks (two parked at once): in-memory store reduced to a single slot',
+    'C04-7': 'a chunk payload replaced by an intact copy of another wanted chunk: mismatch error turned into "misplaced chunk"',
+    'C04-8': 'a compressed payload that decodes to zero bytes (2 of the single-bit flips of a brotli chunk): verify skipped for empty data',
+    'C04-9': 'a --verify-header value that does not parse (trailing comma): parse error becomes "no pin"',
+    'C05-7': 'a first run that died before the output was created, re-run with --seed-output: match arm without create(true)',
+    'C05-8': 'the final ftruncate fails (sealed memfd) on a longer prior output: resize error only logged',
+    'C05-9': '--verify-output with a longer prior output: checksum taken before the resize',
+    'C06-7': 'a block device output holding wanted chunks beyond the new image\'s length: scan limited with take(source size)',
+    'C06-8': 'a body fragment of a multi-chunk response ending exactly on an inner chunk boundary: request dropped when the buffer drains',
+    'C06-9': '-f together with --seed-output on an existing file: truncate(force_create) on open',
+    'C08-7': 'a second mid-body cut of the same range request: per-response byte counter never reset',
+    'C08-8': 'HTTP reader, final failure in the connect phase and a consumer that polls again: take_while re-polls a completed future',
+    'C08-9': 'a retry budget of b >= 1 on header reads: off-by-one in a rewritten attempt counter',
+    'C11-7': 'a non-default --hash-length (CLI writer): truncation applied to a copy used for logging only',
+    'C11-8': 'a source where no chunk shrinks (or an empty one): recorded compression filtered by "any chunk compressed"',
+    'C11-9': 'two or more --metadata-value / --metadata-file options: pairs zipped with the wrong stride',
+    'C12-7': 'two create_archive calls with different brotli levels in one process: encoder parameters cached in a static OnceLock',
+    'C12-8': 'a metadata key given twice and reads completing out of order: files read through FuturesUnordered',
+    'C12-9': 'identical compressible chunks less than num_chunk_buffers apart and a particular interleaving: racy "who compresses" marker',
+    'C13-7': 'a read error exactly at a StoreInMem of a swap: reorder read errors logged and skipped',
+    'C13-8': 'an I/O error during the re-order phase: fallback rebuilds the clone index from the archive',
+    'C13-9': 'a repeated chunk, a write error on a later offset and a caller that carries on: location put back into the index',
+    'C14-7': 'a self-consistent header without the chunk_compression message: unwrap_or_default instead of invalid archive',
+    'C14-8': 'the output is a symlink to a too small block device: block-device test done with lstat on the path',
+    'C14-9': 'an existing output and --verify-output without -f: create / create_new derived from a condition that includes verify_output',
+    'C15-7': 'a checksum-valid header with a rebuild index in [descriptors, entries): bound checked against the wrong count',
+    'C15-8': 'a metadata key longer than 32 bytes with a multi-byte character across byte 32: key sliced at a byte index',
+    'C15-9': 'a server whose chunk-data body does not end after the requested bytes: response drained before it is dropped',
+    'C16-7': '--seed-output together with --seed FILE: one OpenOptions value shared and mutated by the output branch',
+    'C16-8': 'a temp file left by a killed earlier compress, re-run with -f: free temp name chosen, old name removed',
+    'C16-9': 'a fetched chunk that fails its hash check: rejected data written to <output stem>.rejected-chunk',
+    'C17-7': 'a conforming archive with chunk data stored in descending / permuted order: overlap check walks dictionary order',
+    'C17-8': 'a conforming archive stored in permuted order: reported archive size taken from the last descriptor',
+    'C17-9': 'a source larger than 4 GiB: offset accumulator of a rewritten scan() inferred as u32',
 }
 WHY_MISSED = {
     'C03-2': 'not decided by design: correctness of the DFS reorder planner (graph algorithm over runtime data)',
@@ -125,6 +168,10 @@ WHY_MISSED = {
     'C13-4': 'no rule: the scan index must record every occurrence',
     'C15-6': 'no rule: a validated (non-zero) but huge value makes a derived concurrency zero (range reasoning beyond A4)',
     'C17-6': 'no rule: a new refusal based on the file size (behavioural)',
+    'C02-8': 'reported under C14 / C16 (a second path opened for writing, a rename) - the structural fact; that two concurrent clones then share the side file is an interleaving of two processes, which no rule sees',
+    'C11-9': 'no rule: iterator arithmetic (stride of a zip) in a new argument-pairing helper - value reasoning over positions in a list',
+    'C15-9': 'reported under C06 / C07 / C08 (the request is no longer dropped behind the run counter); that the drain loop is bounded only by what the server sends is a liveness fact about a peer, no rule',
+    'C17-8': 'no rule: a reported figure (archive size in `bita info`) derived from the last descriptor; the clone itself stays exact',
 }
 
 
